@@ -23,7 +23,7 @@ import matplotlib
 matplotlib.use('Agg')
 import matplotlib.pyplot as plt  # noqa
 
-from harness import core, tlc, fcsgen, heapreplay as hr
+from harness import core, tlc, fcsgen, loadform, heapreplay as hr
 from harness.core import run_driver
 from harness.conf_C20 import heap_part
 
@@ -116,6 +116,8 @@ def fp(x, depth=0):
         return ('dict', tuple((repr(k), fp(v, depth + 1)) for k, v in x.items()))
     if isinstance(x, (list, tuple)):
         return (type(x).__name__, tuple(fp(v, depth + 1) for v in x))
+    if hasattr(x, 'read') and hasattr(x, 'closed'):
+        return ('file', bool(x.closed))            # an open file the caller handed over stays the caller's: open
     if callable(x):
         return ('callable', id(x))
     return ('value', repr(x))
@@ -189,6 +191,11 @@ def registry(I):
                        'nb': list(nb) if isinstance(nb, list) else nb, 'sc': scale})), query=True)
     add('io.FCSData', 'load', lambda: (lambda a: FlowCal.io.FCSData(a['path']), {'path': I.path}))
     add('io.FCSFile', 'load', lambda: (lambda a: FlowCal.io.FCSFile(a['path']).data.shape, {'path': I.path}))
+    # the documented other form of `infile`: an open file (a real handle / a file-like wrapper), read once and twice
+    for lab, mk in (('handle', lambda: open(I.path, 'rb')), ('file-like', lambda: loadform.FileLike(open(I.path, 'rb')))):
+        add('io.FCSData', 'load/' + lab, lambda mk=mk: (lambda a: FlowCal.io.FCSData(a['h']), {'h': mk()}))
+        add('io.FCSData', 'load/%s/twice' % lab, lambda mk=mk: (lambda a: [FlowCal.io.FCSData(a['h']), FlowCal.io.FCSData(a['h'])], {'h': mk()}))
+        add('io.FCSFile', 'load/' + lab, lambda mk=mk: (lambda a: [FlowCal.io.FCSFile(a['h']).data.shape, FlowCal.io.FCSFile(a['h']).text], {'h': mk()}))
     for seg in ('header', 'text'):
         def b(seg=seg):
             import io as _io
